@@ -5,7 +5,6 @@ import (
 	"testing"
 	"time"
 
-	"github.com/mholt/caddy-l4/layer4"
 
 	"verif/sim/worlds"
 )
@@ -52,10 +51,11 @@ func runC01UDP(t *testing.T, e *worlds.Env, tier string) (bool, any) {
 			sample.Datagrams = append(sample.Datagrams, sz)
 			total += sz
 		}
-		if total > layer4.MaxMatchingBytes-100 {
-			// keep the whole stream matchable
-			sample.Datagrams = sample.Datagrams[:1]
-			total = sample.Datagrams[0]
+		// (only the first bytes are matched on: the matcher needs at most 3000; large datagrams one
+		// after the other are what makes the socket reader's pooled buffers travel)
+		for total > 40000 {
+			total -= sample.Datagrams[len(sample.Datagrams)-1]
+			sample.Datagrams = sample.Datagrams[:len(sample.Datagrams)-1]
 		}
 		model.App = worlds.Stream(model.Key, total)
 		off := 0
